@@ -257,7 +257,9 @@ func genDecor(t *rapid.T, c *Case) {
 		c.CritValue = rapid.SampledFrom([]string{"www.example.com", "a,b,c", " ", "0", "false", "\x00"}).Draw(t, "critValue")
 	}
 	if rapid.Bool().Draw(t, "otherCrit") {
-		c.OtherCrit = map[string]string{rapid.SampledFrom([]string{"force-command", "source-address", "noncetool", "Touchless-Sudo-Hosts", "touchless-sudo-hosts ", "touchless_sudo_hosts"}).Draw(t, "ock"): rapid.SampledFrom([]string{"", "x", "www.example.com"}).Draw(t, "ocv")}
+		c.OtherCrit = map[string]string{rapid.SampledFrom([]string{"force-command", "source-address", "noncetool", "Touchless-Sudo-Hosts", "touchless-sudo-hosts ", "touchless_sudo_hosts",
+			// vendor-namespaced and otherwise decorated spellings (name@domain is how vendors name their own options): other options all the same
+			"touchless-sudo-hosts@example.com", "touchless-sudo-hosts@", "touchless-sudo-hosts.", "touchless-sudo-hosts2", "touchless-sudo-host", "x-touchless-sudo-hosts", "touchless-sudo-hosts\x00"}).Draw(t, "ock"): rapid.SampledFrom([]string{"", "x", "www.example.com"}).Draw(t, "ocv")}
 	}
 	if rapid.Bool().Draw(t, "ext") {
 		c.Extensions = map[string]string{rapid.SampledFrom([]string{"permit-pty", critOpt}).Draw(t, "ek"): rapid.SampledFrom([]string{"", "www.example.com"}).Draw(t, "ev")}
@@ -365,7 +367,7 @@ func gen(t *rapid.T) Case {
 	return c
 }
 
-const rule = "certificates with KeyIDs built from attribute sets (16 flag combinations x touch policy {-1..4,7} x version, decorated with random transaction ids, principals, usage (one value in 24 is 1..70 KB long, one principal list in 24 has 8..1000 entries: KeyIDs beyond 4 KiB and 64 KiB), extra members, member order, JSON whitespace inside and around the object), near-miss KeyIDs (one required member deleted - in half of those with its exact name still in the text as a string value, a principal, a nested member or an extra string - / upper-cased / retyped, truncated text, a complete KeyID followed by a trailer such as a brace or a second KeyID), free text and nil certificates; critical option nil-map / absent / empty / set, other critical options and look-alike names, extensions carrying the option name; certificate kind unset / user / host / undefined, serial and validity window at their extremes (no input of the type). Oracle: independently written decision table for GetType, Label = documented type name + 'SSH-' + transaction id (error for unknown), GetPrincipals suffix rules. Non-trivial: decodable KeyID with at least one flag set or the critical option present; distinct by Case hash."
+const rule = "certificates with KeyIDs built from attribute sets (16 flag combinations x touch policy {-1..4,7} x version, decorated with random transaction ids, principals, usage (one value in 24 is 1..70 KB long, one principal list in 24 has 8..1000 entries: KeyIDs beyond 4 KiB and 64 KiB), extra members, member order, JSON whitespace inside and around the object), near-miss KeyIDs (one required member deleted - in half of those with its exact name still in the text as a string value, a principal, a nested member or an extra string - / upper-cased / retyped, truncated text, a complete KeyID followed by a trailer such as a brace or a second KeyID), free text and nil certificates; critical option nil-map / absent / empty / set, other critical options and look-alike names (other case, trailing blank / dot / digit / NUL, underscores, a prefix, the singular, the vendor form name@domain), extensions carrying the option name; certificate kind unset / user / host / undefined, serial and validity window at their extremes (no input of the type). Oracle: independently written decision table for GetType, Label = documented type name + 'SSH-' + transaction id (error for unknown), GetPrincipals suffix rules. Non-trivial: decodable KeyID with at least one flag set or the critical option present; distinct by Case hash."
 
 func TestC19Random(t *testing.T) {
 	vh.Run(t, vh.Spec[Case]{Property: "C19", Name: "TestC19Random", Rule: rule, Gen: gen, Exec: exec})
